@@ -3,6 +3,7 @@ import Operon.Model.Cascade
 import Operon.Model.CascadeObs
 import Operon.Model.CascadeTr
 import Operon.Model.CascadePar
+import Operon.Model.CascadeMapk
 /-! Line-protocol driver for the cascade model (C19). -/
 open Operon Operon.Proto Operon.Cascade
 
@@ -75,14 +76,8 @@ def step (st : DSt) (toks : List String) : DSt × String :=
     ({ st with cobs := o }, "ok")
   | "shadow" :: _ => (st, "ok")          -- another cascade object is created next to this one: must not matter
   | ["mapk", h, m, a1, a2, a3] =>
-    -- the shipped MAPKCascade preset; signals are abstracted to the tier they carry (0 = raw input, k = dict of tier k)
-    let t1 : Stage Nat := ⟨none, fun _ => .ok 1, none, true, ratOf a1⟩
-    -- a raw (non-dict) signal reaching tier 2/3 makes `x.get(...)` raise AttributeError in gate and processor
-    let t2 : Stage Nat := ⟨some fun x => if x = 0 then .raise else .ok true,
-                           fun x => if x = 0 then .raise else .ok 2, none, true, ratOf a2⟩
-    let t3 : Stage Nat := ⟨some fun x => if x = 0 then .raise else .ok (x == 2),
-                           fun x => if x = 0 then .raise else .ok 3, none, true, ratOf a3⟩
-    ({ cfg := ⟨boolOf h, ratOf m⟩, stages := [t1, t2, t3], names := ["MAPKKK", "MAPKK", "MAPK"], made := 3,
+    -- the shipped MAPKCascade preset (Model/CascadeMapk.lean: signals abstracted to the tier they carry)
+    ({ cfg := ⟨boolOf h, ratOf m⟩, stages := mapkPreset (ratOf a1) (ratOf a2) (ratOf a3), names := ["MAPKKK", "MAPKK", "MAPK"], made := 3,
        nests := [false, false, false] }, "ok")
   | ["stage", cp, pr, eh, req, amp] =>
     ({ st with stages := st.stages ++ [mkStage st.made cp pr eh (boolOf req) (ratOf amp)],
